@@ -14,6 +14,11 @@ CHECKS = {
    text="Every removal request generated on a store that the model knows must succeed and remove exactly the model's cascade; afterwards the whole store (items, handles, every reverse lookup, the dumped indices incl. dangling forward references) must equal the model, to_json_string must succeed and a SELECT over all annotations must yield exactly the survivors. Held on the histories observed.",
    note="Trusted: the cascade rules of DESIGN.md appendix A; removals of unknown items are not judged; DELETE queries only by plain id.",
    ref="5/C02"),
+ "C03": dict(
+   technique="runtime monitoring: seeded histories with duplicate-id insertions and removals; after every operation a probe set of ~150 lookup strings per kind (all ids ever used, '!<L><n>' temporary-id syntax, Unicode) is resolved through every getter and compared with the shadow model's id tables; terminal strip-ids / reindex steps judged against the model",
+   text="Id resolution is observed for annotations, resources, datasets, substores and per-dataset keys and data after every step of thousands of histories: a live id must resolve to exactly the item carrying it, removed / never-used ids and wrong-kind or dead temporary ids must not resolve, nothing may panic, resolve_*_id must agree with the getters, duplicate-id insertions must be no-ops or refused without changing the store. Held on what was probed; reindex with gaps is a recorded known finding.",
+   note="Trusted: model id tables; public ids that look like temporary ids are not generated; non-canonical temporary ids ('!A01', '!a1') are only required not to panic or return an unrelated item.",
+   ref="5/C03"),
  "C13": dict(
    technique="runtime oracle monitor: exhaustive enumeration of range pairs / small set pairs against interval-arithmetic reference + algebraic laws, panics caught per call",
    text="Every ordered pair of ranges of several 7-codepoint texts (incl. zero-width, whitespace layouts) and every ordered pair of sets of size<=2 over a 10-range universe is run through the real test/test_set entry points for all 92 operator x modifier variants; each answer is compared with an interval-arithmetic reference and the converse/symmetry/implication/complement laws. Exhaustive within that bound, nothing beyond it.",
